@@ -34,6 +34,44 @@ def frame_summary(frames: list) -> list:
     return out
 
 
+def scaled_jobs(integ: str, parsers: list) -> list[dict]:
+    """Jobs re-run with every tunable integer constant of the source set to tunables.SCALE: five-statement
+    sequences are then longer than any batch size, default frame size or chunk size written in the source."""
+    from .. import tunables
+
+    def iri(tag: str) -> tuple:
+        return P.t_iri(tag)
+
+    out: list[dict] = []
+    g1, g2 = iri("g1"), iri("g2")
+    for physical in (1, 2, 3):
+        graphs = [g1, g1, g1, g2, g2]
+        runs = [(iri(f"s{i}"), iri("p"), iri(f"o{i}")) + ((graphs[i],) if physical != 1 else ()) for i in range(5)]
+        same = [(iri("s"), iri("p"), P.t_lit(f"o{i}")) + ((graphs[i],) if physical != 1 else ()) for i in range(5)]
+        # the option-guessing flat entry point picks the stream class itself (never a GraphStream)
+        vias = (("sink", "generator") if integ == "generic" else ("store", "generator")) + (("flat",) if physical != 3 else ())
+        flat_lt = 1 if physical == 1 else 2
+        for name, stmts in (("five statements, two graph runs", runs), ("five statements, same subject and predicate", same)):
+            for via in vias:
+                for frame_size in (250, None):
+                    out.append(dict(integ=integ, physical=physical, name=f"{name} [tunables={tunables.SCALE}]", stmts=stmts, preset=(32, 8, 8), delimited=True, frame_size=frame_size, logical=None if via == "flat" else flat_lt, via=via, parsers=parsers, generalized=False, rdf_star=False, tunable_scale=tunables.SCALE, single_run=True))
+    return out
+
+
+def nonempty_graph_starts(frames: list) -> int:
+    n, pending = 0, False
+    for rows in frames:
+        for kind in rows:
+            if kind == "graph_start":
+                pending = True
+            elif kind == "graph_end":
+                pending = False
+            elif kind == "triple" and pending:
+                n += 1
+                pending = False
+    return n
+
+
 def run(prog, job: dict) -> dict:
     """job: integ, physical, name, stmts, preset, delimited, frame_size, logical, via, parsers, namespaces"""
     integ = job["integ"]
@@ -76,7 +114,9 @@ def run(prog, job: dict) -> dict:
 
     paths = []
     funcs: set[str] = set()
-    for it, outcome in explore(prog, scenario, max_paths=job.get("max_paths", 256), generic_strings=True):
+    tunables_hit: set[str] = set()
+    for it, outcome in explore(prog, scenario, max_paths=job.get("max_paths", 256), generic_strings=True, tunable_scale=job.get("tunable_scale")):
+        tunables_hit |= it.tunables_hit
         for e in it.events:
             if e["kind"] == "call":
                 funcs.add(f"{e['module']}.{e['func']}")
@@ -85,4 +125,4 @@ def run(prog, job: dict) -> dict:
         rec = outcome[1]
         rec["decisions"] = list(zip(it.tags, it.decisions))
         paths.append(rec)
-    return {"job": {k_: v for k_, v in job.items() if k_ not in ("stmts",)}, "expected": freeze(expected) if expected is not None else None, "expected_set": freeze(sorted(P.expected_items(stmts, physical), key=repr)), "paths": paths, "funcs": sorted(funcs), "typed": any(P.uses_typed_literal(t) for st in stmts for t in st)}
+    return {"job": {k_: v for k_, v in job.items() if k_ not in ("stmts",)}, "expected": freeze(expected) if expected is not None else None, "expected_set": freeze(sorted(P.expected_items(stmts, physical), key=repr)), "paths": paths, "funcs": sorted(funcs), "tunables_hit": sorted(tunables_hit), "typed": any(P.uses_typed_literal(t) for st in stmts for t in st)}
